@@ -1,5 +1,6 @@
 import Andes.Model.Hex
 import Andes.Model.TdsDriver
+import Andes.Model.DiscreteDriver
 import Andes.Model.NewtonDriver
 /-! One case per input line, one canonical output line; the first word selects the model. -/
 
@@ -11,6 +12,7 @@ def handle (line : String) : String :=
   | "nr" :: args => Andes.Newton.handleNr args
   | "stp" :: args => Andes.Newton.handleStp args
   | "cli" :: args => Andes.Newton.handleCli args
+  | "disc" :: op :: args => Andes.Discrete.handleDisc op args
   | _ => "bad-op"
 
 partial def loop (h : IO.FS.Stream) : IO Unit := do
